@@ -126,10 +126,19 @@ def c11_history(col, rng, hidx, jobref=None):
     hist = []
     rp = {"kind": "rerun_job", "job": dict(jobref or {}, n_histories=hidx + 1), "source": S.render(sp), "setup": [ids[i] for i in sorted(setup)]}
     total_setup_runs = {0: {}}
-    for step in range(rng.randint(3, 9)):
+    pending = {}
+    for step in range(rng.randint(3, 10)):
         k = rng.choice(list(insts))
         d, m = insts[k], model[k]
-        op = rng.choice(["call", "call", "exec", "exec", "setup", "setup_t", "copy"])
+        op = rng.choice(["call", "call", "exec", "exec", "setup", "setup_t", "copy", "exec_create", "exec_run_pending"])
+        if op == "exec_create":
+            ts = rng.sample(range(n), rng.randint(1, min(3, n)))
+            kwp = {"target_nodes": [ids[i] for i in ts]}
+            pending.setdefault(k, []).append((d.executor(**kwp), S.closure(sp, None, None, ts), kwp))
+            hist.append(("executor_created_run_later", k, S.jsonable(kwp)))
+            continue
+        if op == "exec_run_pending" and not pending.get(k):
+            continue
         if op == "copy":
             j = max(insts) + 1
             insts[j] = copy.deepcopy(d)
@@ -148,6 +157,15 @@ def c11_history(col, rng, hidx, jobref=None):
             kw = {"target_nodes": [ids[i] for i in ts]}
             sel = S.closure(sp, None, None, ts)
             thunk = lambda: op_exec(d, kw, args)  # noqa: E731
+        elif op == "exec_run_pending":
+            exo, sel, kw = pending[k].pop(rng.randrange(len(pending[k])))
+
+            async def _arun(exo=exo):
+                return await exo(*args)
+
+            thunk = lambda exo=exo, _arun=_arun: do(d, lambda: exo(*args), _arun)  # noqa: E731
+            op = "exec"
+            col.counters["c11_deferred_executor_runs"] += 1
         elif op == "setup":
             sel = set(setup)
             thunk = lambda: op_setup(d, {})  # noqa: E731
@@ -541,6 +559,11 @@ def c18_case(col, rng, cidx, tmpdir, jobref=None):
         sel2 = set(range(n))
     d2, _e, _p = S.build_tawazi(sp, plain=plain)  # "a later execution of the same DAG": a fresh process would rebuild it
     dd = d2 if rng.random() < 0.5 else d
+    recache = None
+    if rng.random() < 0.25:
+        # from_cache and cache_in together: the restart re-writes a cache file, from which a second restart must work too
+        recache = os.path.join(tmpdir, "c%d_b.pkl" % cidx)
+        kw2["cache_in"] = recache
     B.reset_log()
     probes.reset_counts()
     r2 = probes.run_op("restart_run", lambda: op_exec(dd, kw2, args))
@@ -569,6 +592,29 @@ def c18_case(col, rng, cidx, tmpdir, jobref=None):
         exp = ref[1].result
         if not same(exp, r2[1]):
             col.violation(pid, "restart_value_differs_from_uncached_run", dict(expected=short(exp, 300), got=short(r2[1], 300), caching=S.jsonable(kw1), restart=S.jsonable(kw2), source=S.render(sp)), rp2)
+    if recache is not None and r2[0] == "ok":
+        kw3 = {k: v for k, v in kw2.items() if k not in ("cache_in", "from_cache")}
+        kw3["from_cache"] = recache
+        try:
+            with open(recache, "rb") as f:
+                cached2 = pickle.load(f)  # noqa: S301
+        except Exception as e:  # noqa: BLE001
+            col.violation(pid, "recached_file_unreadable", dict(exc=repr(e)[:200]), rp2)
+            cached2 = None
+        if cached2 is not None:
+            B.reset_log()
+            r3 = probes.run_op("second_restart", lambda: op_exec(d2, kw3, args))
+            ent3, _v3 = observed(B.snapshot())
+            col.evaluations += 1
+            col.counters["c18_second_restarts_from_recached_file"] += 1
+            if r3[0] != "ok":
+                col.violation(pid, "restart_from_recached_file_raised", dict(exc=repr(r3[1])[:300], source=S.render(sp)), rp2)
+            else:
+                rec3 = sorted(x for x in ent3 if x in cached2)
+                if rec3:
+                    col.violation(pid, "restart_recomputed_cached_nodes", dict(recomputed=rec3, second_restart=True, source=S.render(sp)), rp2)
+                if ref[0] == "ok" and rmode != "cache_deps_of" and not same(r2[1], r3[1]):
+                    col.violation(pid, "restart_value_differs_from_uncached_run", dict(expected=short(r2[1], 300), got=short(r3[1], 300), second_restart=True, source=S.render(sp)), rp2)
     col.hashes.add(S.spec_hash({"s": S.render(sp), "k1": {k: v for k, v in S.jsonable(kw1).items() if k != "cache_in"},
                                 "k2": {k: v for k, v in S.jsonable(kw2).items() if k != "from_cache"}}))
     if cidx % 40 == 0:
